@@ -9,7 +9,7 @@
 From Coq Require Import List NArith ZArith Bool.
 From KV Require Import Lib.Bits Lib.Bytes Model.Legacy Model.ConnOps.
 From KV Require Import Proofs.ConnOpsBase Proofs.ConnOpsCodec Proofs.ConnOpsProofs Proofs.ConnOpsWitness
-  Proofs.ConnOpsCustom Proofs.ConnOpsAll.
+  Proofs.ConnOpsCustom Proofs.ConnOpsAll Proofs.ConnOpsInflight.
 Import ListNotations.
 Open Scope Z_scope.
 
@@ -71,6 +71,39 @@ Theorem C11_closed_every_later_fails : forall st ops s,
   exists st', conn_run st ops s = (st', map (fun _ => RErr EClosed) ops, s) /\ closed st' = true.
 Proof. exact closed_run. Qed.
 Print Assumptions C11_closed_every_later_fails.
+
+(* ---- Conn.inflight: enter/leave balance and the desynchronisation detector ----
+   [conn_do_i (st, n)] threads Conn.inflight = n through one call ([Spins] = the call never
+   returns: waitResponse loops on a frame with a foreign correlation id because
+   concurrency() <> 1 and no other goroutine will consume it). *)
+(* every call that returns leaves the counter where it found it, on every exit path *)
+Theorem C11_inflight_balanced : forall st n o s st' n' r s',
+  conn_do_i (st, n) o s = ((st', n'), Returns r, s') -> n' = n.
+Proof. exact inflight_balanced. Qed.
+Print Assumptions C11_inflight_balanced.
+
+(* hence after any completed call sequence inflight = 0, every call returns (the detector is
+   enabled for the next call), and the results are those of conn_run, to which the theorems of
+   this file apply *)
+Theorem C11_inflight_zero_detector_enabled : forall ops st s,
+  conn_run_i (st, 0) ops s =
+    let '(st', rs, s') := conn_run st ops s in ((st', 0), map Returns rs, s').
+Proof. exact run_inflight_zero. Qed.
+Print Assumptions C11_inflight_zero_detector_enabled.
+
+(* the detector: a foreign correlation id on an open Conn is io.ErrNoProgress, nothing consumed *)
+Theorem C11_foreign_id_is_noprogress : forall st o s,
+  closed st = false -> foreign_head (wrap32 (corr st + 1)) s = true ->
+  exists st', conn_do st o s = (st', RErr ENoProgress, s) /\ closed st' = false.
+Proof. exact foreign_id_is_noprogress. Qed.
+Print Assumptions C11_foreign_id_is_noprogress.
+
+(* why the balance matters: with a leaked counter the same situation never returns *)
+Theorem C11_leaked_counter_spins : forall st n o s,
+  closed st = false -> 1 <= n -> foreign_head (wrap32 (corr st + 1)) s = true ->
+  exists sti, conn_do_i (st, n) o s = (sti, Spins, s).
+Proof. exact leaked_counter_spins. Qed.
+Print Assumptions C11_leaked_counter_spins.
 
 (* ---- no byte of one response is interpreted as part of another: over ANY sequence of
    operations answered by well-formed frames (any error codes, any values), after the run
